@@ -78,7 +78,8 @@ func (w *skWalker) push(prefix string, e ast.Expr, suffix string) {
 	hidden := e != nil && w.fn.mentionsErr(e)
 	text := prefix
 	if e != nil {
-		text += w.fn.text(e)
+		// guard conditions are printed with the operands of && / || chains sorted: reordering them is not a change
+		text += canonBoolF(e, func(x ast.Expr) string { return w.fn.text(x) })
 	}
 	w.guards = append(w.guards, skGuard{text + suffix, hidden})
 	if w.collect && !hidden && e != nil {
